@@ -602,6 +602,11 @@ func c06EventsAhead(c *mon.Ctx, ids map[string]*gen.Identity) {
 					db.keys[keyReq{ServerName: spec.ServerName(s), KeyID: "ed25519:main"}] = keyRes{VerifyKey: gmsl.VerifyKey{Key: spec.Base64Bytes(ids[s].Pub)}, ValidUntilTS: spec.Timestamp(vu)}
 					verr := gmsl.VerifyEventSignatures(context.Background(), p, &gmsl.KeyRing{KeyDatabase: db}, userIDForSender)
 					c.Count("events_ahead_of_the_clock")
+					// (and with a key ring that cannot answer at all: never verified)
+					nfail := 0
+					if ferr := gmsl.VerifyEventSignatures(context.Background(), p, failingVerifier{&nfail}, userIDForSender); ferr == nil {
+						c.Failf("verify:accepts-invalid:verifier-failed", "v%s: VerifyEventSignatures succeeds although the key ring answered with an error (asked %d times)", ver, nfail)
+					}
 					want := !(t.StrictValidity && ahead > 7*24*time.Hour)
 					if want != (verr == nil) {
 						dir := "rejects-valid"
